@@ -122,7 +122,30 @@ def gen_specs(rnd, mols):
             target = rnd.choice(MODS)
             if rnd.random() < 0.08:
                 target = 'No-such-mod'
+        if kind == 'modification' and rnd.random() < 0.3:
+            # a side-chain modification (protonation state) asked for by residue name, possibly narrowed to one residue
+            target = rnd.choice(['GLU-HE1', 'GLU-HE2', 'ASP-HD2', 'ASP-HD1'])
+            rn_ = target[:3]
+            parts = {'resname': rn_}
+            hits_ = [(m, r_) for m in mols for r_ in m['res'] if r_['resname'] == rn_ and m['kind'] == 'protein']
+            if hits_ and rnd.random() < 0.5:
+                m, r_ = rnd.choice(hits_)
+                parts['resid'] = r_['resid']
+                if rchain(m, r_) and rnd.random() < 0.5:
+                    parts['chain'] = rchain(m, r_)
         specs.append({'kind': kind, 'parts': parts, 'text': fmt_spec(parts), 'target': target})
+    if specs and rnd.random() < 0.3:
+        # the same thing asked twice, described differently (a general request and one for a particular residue)
+        side_ = [x for x in specs if x['target'][:4] in ('GLU-', 'ASP-')]
+        s0 = rnd.choice(side_ or specs)
+        hits_ = [(m, r_) for m in mols for r_ in m['res']
+                 if all({'chain': rchain(m, r_), 'resname': r_['resname'], 'resid': r_['resid']}.get(k_) == v_ for k_, v_ in s0['parts'].items())]
+        if hits_ and s0['parts'].get('resname') not in ('nter', 'cter'):
+            m, r_ = rnd.choice(hits_)
+            parts = {'resname': r_['resname'], 'resid': r_['resid']}
+            if rchain(m, r_):
+                parts['chain'] = rchain(m, r_)
+            specs.append({'kind': s0['kind'], 'parts': parts, 'text': fmt_spec(parts), 'target': s0['target']})
     return specs
 
 
@@ -305,6 +328,11 @@ def check_repair(mols, specs, system, b):
             atoms = by_res.get((rchain(mols[mi], r), r['resid'], r['icode']), [])
             target = mk['mutation'][0] if mk['mutation'] else r['resname']
             names = {d['atomname'] for d in atoms if d.get('atomname') is not None}
+            allnames = [d['atomname'] for d in atoms if d.get('atomname') is not None]
+            if len(allnames) != len(names):
+                return ('repair/atom-names-not-unique', {'residue': [rchain(mols[mi], r), r['resname'], r['resid']],
+                                                         'repeated': sorted(x for x in names if allnames.count(x) > 1),
+                                                         'modifications': mk['modification'], 'mutation': mk['mutation']})
             want = set(ff.blocks[target].nodes)
             for mod in mk['modification']:
                 if mod != 'none':
@@ -396,9 +424,8 @@ def repairable(mols, specs, marks):
             anchors = {d['atomname'] for _, d in m.nodes(data=True) if not d.get('PTM_atom')}
             if not anchors <= set(ff.blocks[target].nodes):
                 return False
+        # the same modification asked for twice (a general request and one naming the residue) is one modification
         mods = [x for x in mk['modification'] if x != 'none']
-        if len(mods) != len(set(mods)):
-            return False
         # N-ter + NH2-ter etc. on the same residue overlap
         if len({x for x in mods if x in ('N-ter', 'NH2-ter')}) > 1 or len({x for x in mods if x in ('C-ter', 'COOH-ter')}) > 1:
             return False
